@@ -16,6 +16,8 @@ import (
 
 func init() {
 	register(&PropertyCheck{ID: "C10", Level: "other", Run: checkC10, Canaries: []Canary{
+		{Name: "string-result-shortened-after-the-size-print", Rule: "R10.4", Where: "(*Publish).String", Edits: []Edit{{"publish.go", "\treturn withForm(p, fmt.Sprintf(\"%s p%v %s%s %v bytes\",\n\t\tfirstByte(p.fixed).String(),\n\t\tp.packetID,\n\t\ttopic,\n\t\tfunc() string {\n\t\t\tif len(p.correlationData) == 0 {\n\t\t\t\treturn \"\"\n\t\t\t}\n\t\t\treturn \" \" + string(p.correlationData)\n\t\t}(),\n\t\tp.width(),\n\t))", "\treturn withForm(p, shorten(fmt.Sprintf(\"%s p%v %s%s %v bytes\",\n\t\tfirstByte(p.fixed).String(),\n\t\tp.packetID,\n\t\ttopic,\n\t\tfunc() string {\n\t\t\tif len(p.correlationData) == 0 {\n\t\t\t\treturn \"\"\n\t\t\t}\n\t\t\treturn \" \" + string(p.correlationData)\n\t\t}(),\n\t\tp.width(),\n\t)))\n}\n\n// maxLogLine limits the length of the short strings used for\n// logging.\nconst maxLogLine = 120\n\n// shorten returns v cut to maxLogLine, so that a packet with a very\n// long topic name or correlation data does not flood a log.\nfunc shorten(v string) string {\n\tif len(v) > maxLogLine {\n\t\treturn v[:maxLogLine-3] + \"...\"\n\t}\n\treturn v"}}},
+		{Name: "size-by-parts-counts-a-zero-subscription-identifier", Rule: "R10.1", Where: "(*Subscribe).WriteTo", Edits: []Edit{{"subscribe.go", "func (p *Subscribe) width() int {\n\treturn p.fill(_LEN, 0)", "// width returns the size of the encoded packet. It is used by both\n// String and WriteTo, the size is summed up from the parts instead of\n// running the encoder twice.\nfunc (p *Subscribe) width() int {\n\tpropl := p.UserProperties.properties(_LEN, 0)\n\tif p.subscriptionID != nil {\n\t\tpropl += SubscriptionID.width() + p.subscriptionID.width()\n\t}\n\trem := p.packetID.width() + vbint(propl).width() + propl\n\trem += p.payload(_LEN, 0)\n\treturn p.fixed.width() + vbint(rem).width() + rem"}}},
 		{Name: "reason-codes-moved-by-bulk-copy", Silent: true, Edits: []Edit{{"suback.go", "func (p *SubAck) payload(b []byte, i int) int {\n\tn := i\n\tfor j, _ := range p.reasonCodes {\n\t\ti += wuint8(p.reasonCodes[j]).fill(b, i)\n\t}\n\treturn i - n\n}\n\nfunc (p *SubAck) UnmarshalBinary(data []byte) error {\n\tb := &buffer{data: data}\n\tb.get(&p.packetID)\n\tb.getAny(p.propertyMap(), p.appendUserProperty)\n\n\tp.reasonCodes = make([]uint8, len(data)-b.i)\n\n\tfor i, _ := range p.reasonCodes {\n\t\tvar v wuint8\n\t\tb.get(&v)\n\t\tp.reasonCodes[i] = uint8(v)\n\t}\n\treturn b.err", "// payload writes the reason codes, one byte each.\nfunc (p *SubAck) payload(b []byte, i int) int {\n\tn := len(p.reasonCodes)\n\tif len(b) >= i+n {\n\t\tcopy(b[i:], p.reasonCodes)\n\t}\n\treturn n\n}\n\nfunc (p *SubAck) UnmarshalBinary(data []byte) error {\n\tb := &buffer{data: data}\n\tb.get(&p.packetID)\n\tb.getAny(p.propertyMap(), p.appendUserProperty)\n\n\t// the rest of the data is the list of reason codes, one byte each\n\trest := data[b.i:]\n\tp.reasonCodes = make([]uint8, len(rest))\n\tif b.err != nil {\n\t\treturn b.err\n\t}\n\tb.i += copy(p.reasonCodes, rest)\n\treturn nil"}, {"unsuback.go", "func (p *UnsubAck) payload(b []byte, i int) int {\n\tn := i\n\tfor j, _ := range p.reasonCodes {\n\t\ti += wuint8(p.reasonCodes[j]).fill(b, i)\n\t}\n\treturn i - n\n}\n\nfunc (p *UnsubAck) UnmarshalBinary(data []byte) error {\n\tb := &buffer{data: data}\n\tb.get(&p.packetID)\n\tb.getAny(p.propertyMap(), p.appendUserProperty)\n\n\tp.reasonCodes = make([]uint8, len(data)-b.i)\n\n\tfor i, _ := range p.reasonCodes {\n\t\tvar v wuint8\n\t\tb.get(&v)\n\t\tp.reasonCodes[i] = uint8(v)\n\t}\n\treturn b.err", "// payload writes the reason codes, one byte each.\nfunc (p *UnsubAck) payload(b []byte, i int) int {\n\tn := len(p.reasonCodes)\n\tif len(b) >= i+n {\n\t\tcopy(b[i:], p.reasonCodes)\n\t}\n\treturn n\n}\n\nfunc (p *UnsubAck) UnmarshalBinary(data []byte) error {\n\tb := &buffer{data: data}\n\tb.get(&p.packetID)\n\tb.getAny(p.propertyMap(), p.appendUserProperty)\n\n\t// the rest of the data is the list of reason codes, one byte each\n\trest := data[b.i:]\n\tp.reasonCodes = make([]uint8, len(rest))\n\tif b.err != nil {\n\t\treturn b.err\n\t}\n\tb.i += copy(p.reasonCodes, rest)\n\treturn nil"}}},
 		{Name: "bulk-writer-skips-the-first-code", Rule: "R10.7", Where: "SubAck", Edits: []Edit{{"suback.go", "func (p *SubAck) payload(b []byte, i int) int {\n\tn := i\n\tfor j, _ := range p.reasonCodes {\n\t\ti += wuint8(p.reasonCodes[j]).fill(b, i)\n\t}\n\treturn i - n\n}\n\nfunc (p *SubAck) UnmarshalBinary(data []byte) error {\n\tb := &buffer{data: data}\n\tb.get(&p.packetID)\n\tb.getAny(p.propertyMap(), p.appendUserProperty)\n\n\tp.reasonCodes = make([]uint8, len(data)-b.i)\n\n\tfor i, _ := range p.reasonCodes {\n\t\tvar v wuint8\n\t\tb.get(&v)\n\t\tp.reasonCodes[i] = uint8(v)\n\t}\n\treturn b.err", "// payload writes the reason codes, one byte each.\nfunc (p *SubAck) payload(b []byte, i int) int {\n\tn := len(p.reasonCodes)\n\tif len(b) >= i+n {\n\t\tcopy(b[i:], p.reasonCodes[1:])\n\t}\n\treturn n\n}\n\nfunc (p *SubAck) UnmarshalBinary(data []byte) error {\n\tb := &buffer{data: data}\n\tb.get(&p.packetID)\n\tb.getAny(p.propertyMap(), p.appendUserProperty)\n\n\t// the rest of the data is the list of reason codes, one byte each\n\trest := data[b.i:]\n\tp.reasonCodes = make([]uint8, len(rest))\n\tif b.err != nil {\n\t\treturn b.err\n\t}\n\tb.i += copy(p.reasonCodes, rest)\n\treturn nil"}, {"unsuback.go", "func (p *UnsubAck) payload(b []byte, i int) int {\n\tn := i\n\tfor j, _ := range p.reasonCodes {\n\t\ti += wuint8(p.reasonCodes[j]).fill(b, i)\n\t}\n\treturn i - n\n}\n\nfunc (p *UnsubAck) UnmarshalBinary(data []byte) error {\n\tb := &buffer{data: data}\n\tb.get(&p.packetID)\n\tb.getAny(p.propertyMap(), p.appendUserProperty)\n\n\tp.reasonCodes = make([]uint8, len(data)-b.i)\n\n\tfor i, _ := range p.reasonCodes {\n\t\tvar v wuint8\n\t\tb.get(&v)\n\t\tp.reasonCodes[i] = uint8(v)\n\t}\n\treturn b.err", "// payload writes the reason codes, one byte each.\nfunc (p *UnsubAck) payload(b []byte, i int) int {\n\tn := len(p.reasonCodes)\n\tif len(b) >= i+n {\n\t\tcopy(b[i:], p.reasonCodes)\n\t}\n\treturn n\n}\n\nfunc (p *UnsubAck) UnmarshalBinary(data []byte) error {\n\tb := &buffer{data: data}\n\tb.get(&p.packetID)\n\tb.getAny(p.propertyMap(), p.appendUserProperty)\n\n\t// the rest of the data is the list of reason codes, one byte each\n\trest := data[b.i:]\n\tp.reasonCodes = make([]uint8, len(rest))\n\tif b.err != nil {\n\t\treturn b.err\n\t}\n\tb.i += copy(p.reasonCodes, rest)\n\treturn nil"}}},
 		{Name: "fixed-header-written-by-a-helper-struct", Silent: true, Edits: []Edit{{"auth.go", "\ti += p.fixed.fill(b, i)      // firstByte header\n\ti += remainingLen.fill(b, i) // remaining length", "\ti += fixedHeader{p.fixed, remainingLen}.fill(b, i)"}, {"disconnect.go", "\ti += p.fixed.fill(b, i)      // firstByte header\n\ti += remainingLen.fill(b, i) // remaining length", "\ti += fixedHeader{p.fixed, remainingLen}.fill(b, i)"}, {"packet.go", "\treturn n + m, err\n}\n", "\treturn n + m, err\n}\n\n// fill writes the first byte and the remaining length at position\n// i. Returns the number of bytes that make up the fixed header.\nfunc (f fixedHeader) fill(b []byte, i int) int {\n\tn := i\n\ti += f.fixed.fill(b, i)        // firstByte header\n\ti += f.remainingLen.fill(b, i) // remaining length\n\treturn i - n\n}\n"}, {"pingreq.go", "\ti += p.fixed.fill(b, i)  // firstByte header\n\ti += vbint(0).fill(b, i) // remaining length none", "\ti += fixedHeader{p.fixed, 0}.fill(b, i) // remaining length none"}, {"pingresp.go", "\ti += p.fixed.fill(b, i)  // firstByte header\n\ti += vbint(0).fill(b, i) // remaining length none", "\ti += fixedHeader{p.fixed, 0}.fill(b, i) // remaining length none"}, {"puback.go", "\ti += p.fixed.fill(b, i)      // firstByte header\n\ti += remainingLen.fill(b, i) // remaining length", "\ti += fixedHeader{p.fixed, remainingLen}.fill(b, i)"}, {"pubcomp.go", "\ti += p.fixed.fill(b, i)      // firstByte header\n\ti += remainingLen.fill(b, i) // remaining length", "\ti += fixedHeader{p.fixed, remainingLen}.fill(b, i)"}, {"pubrec.go", "\ti += p.fixed.fill(b, i)      // firstByte header\n\ti += remainingLen.fill(b, i) // remaining length", "\ti += fixedHeader{p.fixed, remainingLen}.fill(b, i)"}, {"pubrel.go", "\ti += p.fixed.fill(b, i)      // firstByte header\n\ti += remainingLen.fill(b, i) // remaining length", "\ti += fixedHeader{p.fixed, remainingLen}.fill(b, i)"}, {"suback.go", "\ti += p.fixed.fill(b, i)      // firstByte header\n\ti += remainingLen.fill(b, i) // remaining length", "\ti += fixedHeader{p.fixed, remainingLen}.fill(b, i)"}, {"subscribe.go", "\ti += p.fixed.fill(b, i)      // firstByte header\n\ti += remainingLen.fill(b, i) // remaining length", "\ti += fixedHeader{p.fixed, remainingLen}.fill(b, i)"}, {"unsuback.go", "\ti += p.fixed.fill(b, i)      // firstByte header\n\ti += remainingLen.fill(b, i) // remaining length", "\ti += fixedHeader{p.fixed, remainingLen}.fill(b, i)"}, {"unsubscribe.go", "\ti += p.fixed.fill(b, i)      // firstByte header\n\ti += remainingLen.fill(b, i) // remaining length", "\ti += fixedHeader{p.fixed, remainingLen}.fill(b, i)"}}},
@@ -1063,6 +1065,8 @@ func checkStringSize(p *Prog, c *Check, fn *ssa.Function, fill *ssa.Function) {
 		switch {
 		case sp.why != "":
 			c.Bad("R10.4", cons, sp.pos, "the size printed before \"bytes\" is not the frame's dry-run size: "+sp.why)
+		case sp.f == fill && isRecvOf(p, fn, sp.recv) && sp.text != nil && !textReachesReturn(p, fn, sp.text, 0, map[ssa.Value]bool{}):
+			c.Unk("R10.4", cons, sp.pos, "the text that states the size is cut, indexed or otherwise transformed on its way to String's result (a helper that shortens long lines drops the trailing \"N bytes\"): that the result still states the size is not decided")
 		case sp.f == fill && isRecvOf(p, fn, sp.recv):
 			c.OK("R10.4", cons, sp.pos, "prints the dry-run size "+qname(sp.f)+"(nil-slice, 0) of the receiver"+sp.via)
 		default:
@@ -1120,6 +1124,79 @@ func checkStringSize(p *Prog, c *Check, fn *ssa.Function, fill *ssa.Function) {
 	}
 }
 
+// textReachesReturn: the string v (in fn) reaches fn's result only through steps that keep it whole: returned as it
+// is, an operand of a concatenation or of a fmt call whose result in turn reaches the result, or handed to a function
+// of the library that treats its parameter the same way (never slices or indexes it).
+func textReachesReturn(p *Prog, fn *ssa.Function, v ssa.Value, depth int, seen map[ssa.Value]bool) bool {
+	if depth > 6 || seen[v] {
+		return false
+	}
+	seen[v] = true
+	refs := v.Referrers()
+	if refs == nil {
+		return false
+	}
+	reaches := false
+	for _, r := range *refs {
+		switch x := r.(type) {
+		case *ssa.DebugRef:
+		case *ssa.Return:
+			reaches = true
+		case *ssa.Slice, *ssa.Index, *ssa.Lookup, *ssa.IndexAddr, *ssa.Range:
+			return false
+		case *ssa.MakeInterface:
+			if textReachesReturn(p, fn, x, depth+1, seen) {
+				reaches = true
+			}
+		case *ssa.Store:
+			// a variadic operand slot of a fmt call
+			if ia, ok := x.Addr.(*ssa.IndexAddr); ok {
+				if al, ok := ia.X.(*ssa.Alloc); ok && al.Referrers() != nil {
+					for _, r2 := range *al.Referrers() {
+						if sl, ok := r2.(*ssa.Slice); ok && sl.Referrers() != nil {
+							for _, r3 := range *sl.Referrers() {
+								if call, ok := r3.(*ssa.Call); ok && AsFmtCall(call) != nil && isStringT(call.Type().Underlying()) {
+									if textReachesReturn(p, fn, call, depth+1, seen) {
+										reaches = true
+									}
+								}
+							}
+						}
+					}
+				}
+			}
+		case *ssa.BinOp:
+			if x.Op == token.ADD && textReachesReturn(p, fn, x, depth+1, seen) {
+				reaches = true
+			}
+		case *ssa.Phi:
+			if textReachesReturn(p, fn, x, depth+1, seen) {
+				reaches = true
+			}
+		case *ssa.Call:
+			sc := x.Call.StaticCallee()
+			if sc == nil || sc.Blocks == nil || !p.inMQ(sc) {
+				if bi, ok := x.Call.Value.(*ssa.Builtin); ok && bi.Name() == "len" {
+					continue
+				}
+				return false
+			}
+			for k, a := range x.Call.Args {
+				if a != v || k >= len(sc.Params) {
+					continue
+				}
+				if !textReachesReturn(p, sc, sc.Params[k], depth+1, map[ssa.Value]bool{}) {
+					return false
+				}
+			}
+			if textReachesReturn(p, fn, x, depth+1, seen) {
+				reaches = true
+			}
+		}
+	}
+	return reaches
+}
+
 // sizePrint: one fmt call (in fn or in an mq function fn calls, directly or through helpers) whose constant
 // format prints an operand right before " bytes".  f/recv: the dry-run call that operand is, with the receiver
 // expressed in fn's own values; why: set when the operand is something else.
@@ -1129,6 +1206,7 @@ type sizePrint struct {
 	recv ssa.Value
 	why  string
 	via  string
+	text ssa.Value // the rendered text (result of the print), when it is made in the examined function itself
 }
 
 func sizePrintsOf(p *Prog, fn *ssa.Function, depth int, seen map[*ssa.Function]bool) []sizePrint {
@@ -1204,6 +1282,9 @@ func sizePrintsOf(p *Prog, fn *ssa.Function, depth int, seen map[*ssa.Function]b
 					arg = mi.X
 				}
 				sp := sizePrint{pos: posOf(p, call)}
+				if depth == 0 && call.Type() != nil && isStringT(call.Type().Underlying()) {
+					sp.text = call
+				}
 				if f, recv, ok := p.dryRunCall(arg, 0); ok {
 					sp.f, sp.recv = f, recv
 				} else if prm, isP := stripConvs(arg).(*ssa.Parameter); isP {
@@ -1658,6 +1739,16 @@ func (p *Prog) c10Specs(tn string) []stateSpec {
 			sp.qos = 3
 			specs = append(specs, sp)
 		}
+	}
+	// values that are constructible but outside MQTT's ranges: everything set (also what only exists together with
+	// another field), and everything cleared to zero (also where zero is not a valid value)
+	for _, sp := range append([]stateSpec(nil), specs...) {
+		if sp.bias > 0 || !(sp.name == "all" || sp.name == "all set, then cleared with zero values") {
+			continue
+		}
+		sp.name += ", values outside MQTT's ranges allowed"
+		sp.wide = true
+		specs = append(specs, sp)
 	}
 	if payloadList[tn] != "" {
 		for _, sp := range append([]stateSpec(nil), specs...) {
